@@ -125,6 +125,51 @@ def _check_constructor(res: Result, proj: Project):
                              f"the departure rows are {rows}")
 
 
+REAL_DATA = [
+    ("incomplete-later-id-first", [[{"C"}, {"A"}], [{"B"}, {"C", "A"}], [{"C"}, {"A"}]]),
+    ("ties-and-missing", [[{1, 2}, {3}], [{4}, {1}], [{1, 2}, {3}], [{3}, {2}, {1}, {4}]]),
+    ("complete-with-big-buckets", [[{1, 2, 3}, {4, 5}], [{5}, {4}, {3}, {2}, {1}], [{1, 2, 3}, {4, 5}]]),
+]
+
+
+def _check_departure_real(res: Result, proj: Project):
+    """The real `_departure_rankings` of a real default BioConsert on real datasets: the rows are the bucket ids - under
+    the dataset's own id map - of every distinct unified input ranking, plus the all-tied row."""
+    from .endtoend import E2EWorld, UNIFYING
+    from ..engines.abseval import AbsRaise, Unsupported, Vec
+    from ..loader import AnalysisError
+    from . import oracle
+    cls = proj.cls(bioc.MOD, "BioConsert")
+    dep = proj.method(cls, "_departure_rankings")
+    for label, raws in REAL_DATA:
+        w = E2EWorld(proj)
+        ds = w.dataset(raws)
+        sch = w.scheme(UNIFYING)
+        ids = {w.key(e)[1]: i for e, i in ds.abs_getattr("mapping_elem_id", None, None).items()}
+        want = set()
+        for r in oracle.unified(raws):
+            row = [None] * len(ids)
+            for k, b in enumerate(r):
+                for e in b:
+                    row[ids[e]] = k
+            want.add(tuple(row))
+        want.add(tuple([0] * len(ids)))
+        try:
+            bio = w.alg("bioconsert.bioconsert", "BioConsert")
+            ret = w.rt.call_method(bio, dep.name, ds, sch)
+        except AbsRaise as r:
+            res.bad("N1", f"_departure_rankings:real-instances:{label}", dep.loc(), f"dataset {raws}: raised {r.exc_name}")
+            continue
+        except Unsupported as exc:
+            raise AnalysisError(f"{dep.qualname} on real instances: unsupported construct line "
+                                f"{getattr(exc.node, 'lineno', '?')}: {exc}")
+        rows = {tuple(int(x) for x in (r.vals if isinstance(r, Vec) else r)) for r in
+                (ret.abs_iter() if hasattr(ret, "abs_iter") else ret)}
+        res.check(rows == want, "N1", f"_departure_rankings:real-instances:{label}", dep.loc(),
+                  ok_detail=f"{len(want)} departure rows: the distinct unified rankings under the dataset's ids, and the all-tied row",
+                  bad_detail=f"dataset {raws} (ids {ids}): departure rows {sorted(rows)}, expected {sorted(want)}")
+
+
 def run(ctx) -> Result:
     res = Result("C09")
     proj = ctx.proj
@@ -133,67 +178,78 @@ def run(ctx) -> Result:
     comp = proj.method(cls, "compute_consensus_rankings")
     res.saw(dep, comp)
     res.rule("N1", "departure rows use the caller's element ids (scenarios whose derived datasets would number "
-                   "elements differently)", 4)
+                   "elements differently)", 7)
     res.rule("N2", "initial score of a departure row is its definitional score", 3)
     res.rule("N3", "starting set: distinct unified rankings + all-tied, or one row per starter on the caller's inputs", 7)
     res.rule("N4", "reported score = minimum final score; exactly the rows reaching it are returned", 3)
     res.rule("N5", "only strictly improving moves are applied and their deltas are summed", 3)
 
-    for label, elems, mapping, rankings, complete in SCENARIOS + [_long_scenario()]:
-        sc = bioc.Scenario(elems, mapping, rankings, complete)
-        ret, calls, ds = bioc.eval_departure(proj, sc, [])
-        rows = _rows(ret)
-        uni = sc.unified()
-        exp_all = _expected_rows(sc, uni, mapping)
-        exp = []
-        for r in exp_all:
-            if r not in exp:
-                exp.append(r)
-        tied = [0] * len(elems)
-        # N1: every row must be the id-correct encoding of some unified ranking / the all-tied row
-        foreign = [r for r in rows if r not in exp and r != tied]
-        long_ = len(elems) > 50
+    # scripted scenarios (caller id maps that no real Dataset has): an additional angle; when the routine is written in
+    # a style the scripted stand-ins do not cover, the real-instance rules above still decide N1 / N3
+    from ..loader import AnalysisError as _AE
+    try:
+        for label, elems, mapping, rankings, complete in SCENARIOS + [_long_scenario()]:
+            sc = bioc.Scenario(elems, mapping, rankings, complete)
+            ret, calls, ds = bioc.eval_departure(proj, sc, [])
+            rows = _rows(ret)
+            uni = sc.unified()
+            exp_all = _expected_rows(sc, uni, mapping)
+            exp = []
+            for r in exp_all:
+                if r not in exp:
+                    exp.append(r)
+            tied = [0] * len(elems)
+            # N1: every row must be the id-correct encoding of some unified ranking / the all-tied row
+            foreign = [r for r in rows if r not in exp and r != tied]
+            long_ = len(elems) > 50
 
-        def short(x):
-            return f"<{len(x)} rows of {len(elems)} ids>" if long_ else repr(x)
-        res.check(not foreign and bool(rows), "N1", f"_departure_rankings:no-starters:{label}", dep.loc(),
-                  ok_detail=f"{len(rows)} rows, all in the caller's id space",
-                  bad_detail=f"caller ids {short(mapping)}: unified rankings {short(uni)} give rows {short(rows)}; rows "
-                             f"{short(foreign)} are not the bucket ids of any unified ranking under the caller's map "
-                             f"(expected {short(exp)})")
-        # N3: the set of rows
-        good = sorted(rows) == sorted(exp + [tied]) if tied not in exp else sorted(rows) in (sorted(exp), sorted(exp + [tied]))
-        res.check(good, "N3", f"_departure_rankings:start-set:{label}", dep.loc(),
-                  ok_detail="every distinct unified ranking once + the all-tied row",
-                  bad_detail=(f"rows {rows}, expected each of {exp} once and the all-tied row" if not long_ else
-                              f"{len(rows)} departure rows for {len(elems)} elements; the {len(exp)} distinct input rankings "
-                              f"(they differ at positions {len(elems) // 2}, {len(elems) // 2 + 1} only) and the all-tied row "
-                              f"are expected: {len([r for r in exp if r not in rows])} distinct input ranking(s) missing"))
-    # starters
-    for k, cons in enumerate(STARTERS):
-        label, elems, mapping, rankings, complete = SCENARIOS[k if k < 2 else 0]
-        if k == 1:
-            label, elems, mapping, rankings, complete = SCENARIOS[2]
-        sc = bioc.Scenario(elems, mapping, rankings, complete)
-        ret, calls, ds = bioc.eval_departure(proj, sc, cons)
-        rows = _rows(ret)
-        exp = _expected_rows(sc, cons, mapping)
-        res.check(rows == exp, "N1", f"_departure_rankings:starters:{label}", dep.loc(),
-                  ok_detail=f"{len(rows)} starter rows in the caller's id space",
-                  bad_detail=f"caller ids {mapping}: starters' consensuses {cons} give rows {rows}, expected {exp}")
-        good = len(calls) == len(cons) and all(
-            len(a) == 3 and a[0] is ds and a[1] == Sym("SCHEME") and a[2] is True and not kw for _, a, kw in calls)
-        res.check(good, "N3", f"_departure_rankings:starter-calls:{label}", dep.loc(),
-                  ok_detail="each starter is run once on (caller dataset, caller scheme, at most one ranking)",
-                  bad_detail=f"starter calls: {[(a, kw) for _, a, kw in calls]!r}")
-    # entry point asks for the default starting set on the caller's inputs
-    sc = bioc.Scenario(["A", "B", "C"], {"A": 0, "B": 1, "C": 2}, [[{"A"}, {"B"}, {"C"}]], True)
-    ret, cap, log, ds = bioc.eval_compute(proj, sc, [[0, 1, 2], [0, 0, 0]], [[0, 1, 2], [0, 0, 0]], [1.0, 2.0], False)
-    da = log["departure_args"]
-    good = da is not None and len(da[0]) == 2 and da[0][0] is ds and da[0][1] == Sym("SCHEME") and not da[1]
-    res.check(good, "N3", "compute_consensus_rankings:default-start-set", comp.loc(),
-              ok_detail="_departure_rankings(dataset, scoring_scheme) with unify / all-tied defaults",
-              bad_detail=f"_departure_rankings called with {da!r}")
+            def short(x):
+                return f"<{len(x)} rows of {len(elems)} ids>" if long_ else repr(x)
+            res.check(not foreign and bool(rows), "N1", f"_departure_rankings:no-starters:{label}", dep.loc(),
+                      ok_detail=f"{len(rows)} rows, all in the caller's id space",
+                      bad_detail=f"caller ids {short(mapping)}: unified rankings {short(uni)} give rows {short(rows)}; rows "
+                                 f"{short(foreign)} are not the bucket ids of any unified ranking under the caller's map "
+                                 f"(expected {short(exp)})")
+            # N3: the set of rows
+            good = sorted(rows) == sorted(exp + [tied]) if tied not in exp else sorted(rows) in (sorted(exp), sorted(exp + [tied]))
+            res.check(good, "N3", f"_departure_rankings:start-set:{label}", dep.loc(),
+                      ok_detail="every distinct unified ranking once + the all-tied row",
+                      bad_detail=(f"rows {rows}, expected each of {exp} once and the all-tied row" if not long_ else
+                                  f"{len(rows)} departure rows for {len(elems)} elements; the {len(exp)} distinct input rankings "
+                                  f"(they differ at positions {len(elems) // 2}, {len(elems) // 2 + 1} only) and the all-tied row "
+                                  f"are expected: {len([r for r in exp if r not in rows])} distinct input ranking(s) missing"))
+        # starters
+        for k, cons in enumerate(STARTERS):
+            label, elems, mapping, rankings, complete = SCENARIOS[k if k < 2 else 0]
+            if k == 1:
+                label, elems, mapping, rankings, complete = SCENARIOS[2]
+            sc = bioc.Scenario(elems, mapping, rankings, complete)
+            ret, calls, ds = bioc.eval_departure(proj, sc, cons)
+            rows = _rows(ret)
+            exp = _expected_rows(sc, cons, mapping)
+            res.check(rows == exp, "N1", f"_departure_rankings:starters:{label}", dep.loc(),
+                      ok_detail=f"{len(rows)} starter rows in the caller's id space",
+                      bad_detail=f"caller ids {mapping}: starters' consensuses {cons} give rows {rows}, expected {exp}")
+            good = len(calls) == len(cons) and all(
+                len(a) == 3 and a[0] is ds and a[1] == Sym("SCHEME") and a[2] is True and not kw for _, a, kw in calls)
+            res.check(good, "N3", f"_departure_rankings:starter-calls:{label}", dep.loc(),
+                      ok_detail="each starter is run once on (caller dataset, caller scheme, at most one ranking)",
+                      bad_detail=f"starter calls: {[(a, kw) for _, a, kw in calls]!r}")
+    except _AE as exc:
+        res.extra["scripted_departure_scenarios_skipped"] = str(exc)[:300]
+    pending = None
+    doubts = []
+    try:
+        # entry point asks for the default starting set on the caller's inputs
+        sc = bioc.Scenario(["A", "B", "C"], {"A": 0, "B": 1, "C": 2}, [[{"A"}, {"B"}, {"C"}]], True)
+        ret, cap, log, ds = bioc.eval_compute(proj, sc, [[0, 1, 2], [0, 0, 0]], [[0, 1, 2], [0, 0, 0]], [1.0, 2.0], False)
+        da = log["departure_args"]
+        good = da is not None and len(da[0]) == 2 and da[0][0] is ds and da[0][1] == Sym("SCHEME") and not da[1]
+        res.check(good, "N3", "compute_consensus_rankings:default-start-set", comp.loc(),
+                  ok_detail="_departure_rankings(dataset, scoring_scheme) with unify / all-tied defaults",
+                  bad_detail=f"_departure_rankings called with {da!r}")
+    except _AE as exc:
+        pending = exc
     d = dep.node.args.defaults
     names = dep.param_names
     defaults = {names[len(names) - len(d) + i]: getattr(v, "value", None) for i, v in enumerate(d)}
@@ -202,24 +258,28 @@ def run(ctx) -> Result:
               bad_detail=f"defaults are {defaults}")
 
     _check_constructor(res, proj)
+    _check_departure_real(res, proj)
     from . import C04, C08
-    sub = Result("C09")
-    sub.rule("S2", "", 0)
-    C04._check_initial(sub, proj, ctx.thorough)
-    for o in sub.obligations:
-        o.rule = "N2"
-        res.obligations.append(o)
-    res.functions |= sub.functions
-    C04.check_bioconsert_selection(res, proj, "N4")
-    sub = Result("C09")
-    C08.fill_result(sub, proj, False, only=["L3", "S3", "L5", "L7"])
-    for o in sub.obligations:
-        o.rule = "N5"
-        res.obligations.append(o)
-    res.functions |= sub.functions
+    # scenario rules on the single routines (symbolic costs). When a routine is organised in a way these scenarios do not
+    # cover, the end-to-end rule still runs: a violation it finds is a verdict; without one the analysis error stands.
+    try:
+        doubts = C04.check_initial_deferred(res, proj, ctx.thorough, "N2")
+        C04.check_bioconsert_selection(res, proj, "N4")
+        C04.check_decode_large(res, proj, "N4")
+        sub = Result("C09")
+        C08.fill_result(sub, proj, False, only=["L3", "S3", "L5", "L7"])
+        for o in sub.obligations:
+            o.rule = "N5"
+            res.obligations.append(o)
+        res.functions |= sub.functions
+    except _AE as exc:
+        pending = pending or exc
     res.not_decided.append("numeric correctness of the deltas beyond C08/L5 (float accumulation)")
     res.not_decided.append("that starters return complete consensus rankings over the universe (C03)")
     if not res.violations:      # the end-to-end pass adds nothing to an established violation (and may not terminate on it)
         from . import e2e
         e2e.check(res, ctx.proj, "C09", ctx.thorough)
+    C04.settle_initial_doubts(res, doubts)
+    if pending is not None and not res.violations:
+        raise pending
     return res
